@@ -374,7 +374,7 @@ func (te *tableEngine) continueGame(alivePlayers []*TablePlayerState) error {
 					// return te.TableGameOpen()
 					nextGameCount := te.table.State.GameCount + 1
 					participants := make(map[string]int)
-					for idx, player := range alivePlayers {
+					for idx, player := range te.table.AlivePlayers() {
 						participants[player.PlayerID] = idx
 					}
 					te.SetUpTableGame(nextGameCount, participants)
